@@ -21,18 +21,57 @@ Import ListNotations.
 """
 
 
+def plain_statements(text):
+    """The statements of `dot -Tplain` as lists of fields, by the quoting rules of graphviz (agstrcanon, read back the way
+    dot's own scanner reads a quoted string): a field that is not a plain identifier / number is written between double
+    quotes, a double quote inside it as \\", every other character as it is (a backslash stays one backslash; two
+    backslashes are one unit, so that \\\\" ends the field); a long field may be cut by backslash + newline, which
+    belongs to the layout and not to the field; fields are separated by blanks, statements by newlines."""
+    out, cur, i, n = [], [], 0, len(text)
+    while i < n:
+        c = text[i]
+        if c == "\n":
+            out.append(cur)
+            cur = []
+            i += 1
+        elif c in " \t\r":
+            i += 1
+        elif c == '"':
+            i += 1
+            buf = []
+            while i < n and text[i] != '"':
+                if text[i] == "\\" and i + 1 < n:
+                    d = text[i + 1]
+                    buf.append('"' if d == '"' else "" if d == "\n" else "\\" + d)
+                    i += 2
+                else:
+                    buf.append(text[i])
+                    i += 1
+            i += 1
+            cur.append("".join(buf))
+        else:
+            j = i
+            while j < n and text[j] not in " \t\r\n":
+                j += 1
+            cur.append(text[i:j])
+            i = j
+    if cur:
+        out.append(cur)
+    return out
+
+
 def parse_plain(text):
     nodes, edges = set(), set()
-    for line in text.splitlines():
-        parts = line.split()
+    for parts in plain_statements(text):
         if not parts:
             continue
         if parts[0] == "node":
-            nodes.add(parts[1].strip('"'))
+            nodes.add(parts[1])
         elif parts[0] == "edge":
             n = int(parts[3])
-            style = parts[4 + 2 * n] if len(parts) > 4 + 2 * n else "?"
-            edges.add((parts[1].strip('"'), parts[2].strip('"'), style))
+            # edge tail head n x1 y1 .. xn yn [label xl yl] style color
+            style = parts[-2] if len(parts) >= 6 + 2 * n else "?"
+            edges.add((parts[1], parts[2], style))
     return nodes, edges
 
 
@@ -109,6 +148,239 @@ def one(job):
         return {"job": job, "rec": recs[-1], "ctl": ctl[-1], "paths_before": recs[-2]["impl"]["rec"] if pre else []}
     except Exception as e:  # noqa
         return {"job": job, "error": str(e)[-600:]}
+
+
+# ----------------------------------------------------------------------------- the alphabet of the paths
+# A store path is any absolute string.  The text handed to graphviz and the plain format read back here are made of the
+# paths, so the property is also quantified over what the paths are made of: the same pipeline with its store paths
+# renamed (injectively) to paths with characters that mean something in the dot language, in the plain format or in
+# pydot's handling of names must still evaluate with dds_export_graph, give the same result and signatures as without,
+# and its graph must have exactly the renamed kept / loaded paths as nodes, with the solid and dashed edges of the
+# specification.  One class of characters per pipeline (so that a failure names its class; beyond the quick tier also
+# pipelines whose paths are of several classes); the place of the special
+# text rotates over the paths of the pipeline: in the only / first / middle / last segment of the path, at the
+# start / in the middle / at the end of that segment.
+
+DOT_KEYWORDS = ["node", "edge", "graph", "digraph", "subgraph", "strict"]
+PATH_CLASSES = [
+    # (class, special text, where it may go: "any" place of a segment | "mid" | "seg" = it is the whole segment | "path-end")
+    ("double-quote", '"', "any"), ("quoted-word", '"raw"', "any"), ("backslash", "\\", "any"), ("two-backslashes", "\\\\", "any"),
+    ("backslash-letter", "\\N\\l", "any"), ("backslash-before-quote", '\\"', "any"), ("two-backslashes-before-quote", '\\\\"', "any"),
+    ("backslash-at-end", "\\", "path-end"), ("colon", ":", "any"), ("comma", ",", "any"), ("semicolon", ";", "any"), ("space", " ", "any"),
+    ("tab", "\t", "any"), ("arrow", "->", "any"), ("undirected-edge", " -- ", "any"), ("braces", "{x}", "any"), ("angle-brackets", "<b>", "any"),
+    ("pipe", "|", "any"), ("hash", "#", "any"), ("percent", "%20", "any"), ("ampersand", "&amp;", "any"), ("equals-brackets", "=[x]", "any"),
+    ("single-quote", "'", "any"), ("unicode", "é中→", "any"), ("c-comment", "/*x*/", "mid"), ("empty-segment", "//", "mid"),
+    ("dot-keyword", DOT_KEYWORDS, "seg"), ("number", ["1.5", "-1", ".5", "2"], "seg"), ("long-name", "x y" * 45, "any"),
+]
+SEGMENT_POSITIONS = ("only", "first", "middle", "last")
+IN_SEGMENT = ("start", "mid", "end")
+
+
+def literal_safe(p):
+    """Can the path be written between double quotes in the generated source as it is (progs.path_src, the decorator)?"""
+    return not any(c in '"\\' or ord(c) < 32 for c in p)
+
+
+def special_path(cls, k, rot, used):
+    """The k-th path of a pipeline for a class of PATH_CLASSES: rot picks the segment and the place in the segment; no
+    path of a pipeline is equal to / a prefix of another one (used = the paths made so far)."""
+    _, text, where = next(c for c in PATH_CLASSES if c[0] == cls)
+    for t in range(len(SEGMENT_POSITIONS) * len(IN_SEGMENT)):
+        segpos = SEGMENT_POSITIONS[(rot + t) % len(SEGMENT_POSITIONS)]
+        inpos = IN_SEGMENT[((rot + t) // len(SEGMENT_POSITIONS)) % len(IN_SEGMENT)]
+        if where == "seg":
+            seg, inpos = text[(k + t) % len(text)], "whole"
+        else:
+            if where == "mid":
+                inpos = "mid"
+            elif where == "path-end":
+                segpos, inpos = ("only", "last")[(rot + t) % 2], "end"
+            elif text.endswith("\\") and not text.endswith("\\\\") and inpos == "end" and segpos in ("only", "last"):
+                inpos = "mid"       # one backslash at the very end of the path is a class of its own
+            seg = {"start": f"{text}k{k}", "mid": f"k{text}{k}", "end": f"k{k}{text}"}[inpos]
+        p = {"only": f"/{seg}", "first": f"/{seg}/d/e{k}", "middle": f"/d/{seg}/e{k}", "last": f"/d/e{k}/{seg}"}[segpos]
+        if not any(q == p or q.startswith(p.rstrip("/") + "/") or p.startswith(q.rstrip("/") + "/") for q in used):
+            used.add(p)
+            return p, segpos, inpos
+    raise ValueError("no free path for " + cls)
+
+
+def pipeline_paths(prog, call, pre):
+    """The store paths of a job in a fixed order, and which of them are the path of a data function."""
+    paths, annots = [], set()
+    for mn in sorted(prog["modules"]):
+        for f in prog["modules"][mn]["funcs"]:
+            if f.get("annot"):
+                annots.add(f["annot"])
+            for p in [f.get("annot")] + [st.get("path") for st in f["stmts"]]:
+                if p and p not in paths:
+                    paths.append(p)
+    for a in list(pre) + [call]:
+        if a.get("path") and a["path"] not in paths:
+            paths.append(a["path"])
+    return paths, annots
+
+
+def rename_paths(job, cls_of, rng, rot=0):
+    """The job with its store paths renamed: cls_of(path index) = class of PATH_CLASSES (None: the path stays).  The
+    path of a data function is written in its decorator, between double quotes: it only takes the classes that can be
+    written so and stays as it is for the others.  The path of a keep / load statement is written as a string literal
+    (when it can be) or given through a module variable holding a str or a pathlib.Path (when that keeps the text)."""
+    import pathlib
+    prog, call, pre = copy.deepcopy(job["prog"]), dict(job["call"]), [dict(a) for a in job.get("pre", [])]
+    paths, annots = pipeline_paths(prog, call, pre)
+    ren, info, used = {}, {}, set()
+    for k, p in enumerate(paths):
+        cls = cls_of(k)
+        if cls is not None:
+            q, segpos, inpos = special_path(cls, k + 1, rot + k, used)
+            if p in annots and not literal_safe(q):
+                used.discard(q)
+                cls = None
+        if cls is None:
+            used.add(p)
+            continue
+        ren[p] = q
+        info[q] = {"class": cls, "segment": segpos, "place": inpos, "was": p, "data_function": p in annots, "spelled": []}
+    nvar = [0]
+    for mn in sorted(prog["modules"]):
+        m, var_of = prog["modules"][mn], {}
+        for f in m["funcs"]:
+            if f.get("annot") in ren:
+                f["annot"] = ren[f["annot"]]
+                info[f["annot"]]["spelled"].append("decorator")
+            for st in f["stmts"]:
+                if st.get("path") not in ren:
+                    continue
+                q = st["path"] = ren[st["path"]]
+                options = (["literal"] if literal_safe(q) else []) + ["str-variable"] + (["path-variable"] if pathlib.PurePosixPath(q).as_posix() == q else [])
+                how = var_of[q][1] if q in var_of else rng.choice(options)
+                if how != "literal":
+                    if q not in var_of:
+                        nvar[0] += 1
+                        var_of[q] = (f"PA_{nvar[0]}", how)
+                        m["vars"][var_of[q][0]] = ["str" if how == "str-variable" else "ppath", q.encode("utf-8").hex()]
+                    st["path_var"] = var_of[q][0]
+                    if st["path_var"] not in f["reads"]:
+                        f["reads"] = f["reads"] + [st["path_var"]]
+                if how not in info[q]["spelled"]:
+                    info[q]["spelled"].append(how)
+    for a in pre + [call]:
+        if a.get("path") in ren:
+            a["path"] = ren[a["path"]]
+            info[a["path"]]["spelled"].append("argument")
+    return {"prog": prog, "call": call, "pre": pre, "alphabet": info}
+
+
+def path_class(paths_info, names):
+    """The class the (expected or unexpected) node names belong to: the class of the renamed path that is the name or
+    shares the longest beginning with it."""
+    if not paths_info:
+        return "none"
+    def common(a, b):
+        n = 0
+        while n < min(len(a), len(b)) and a[n] == b[n]:
+            n += 1
+        return n
+    name = sorted(names)[0]
+    return paths_info[max(sorted(paths_info), key=lambda q: (q == name, common(q, name)))]["class"]
+
+
+# Violation keys: path-alphabet:<class of characters> when the export fails or the graph read back has other nodes / edges
+# (what a class of names does to the dot text shows as the one or the other depending on the graph around it);
+# path-alphabet:<other kind of failure>:<class> otherwise.
+
+def check_drawn(rep, cls, rr):
+    """An interaction tree drawn by the real draw_graph (drive_graphrender.py): the file read back against the graph of the
+    real _structure for the same tree.  Returns the list of differences (also used by the replay)."""
+    rj = {"drawn": True, "class": cls, "tree": rr["tree"], "names": rr["names"], "present": rr["present"]}
+    used = sorted(set(rr.get("nodes", [])))
+    where = f"interaction tree with the paths {json.dumps(used, ensure_ascii=False)[:300]} of class '{cls}' given to the real draw_graph"
+    if "structure_error" in rr:
+        return []           # not a matter of names: the fuzzed interaction trees above look for these
+    if "draw_error" in rr:
+        rep.violation(f"path-alphabet:{cls}", f"{where}: _structure gives a graph of {len(used)} nodes but drawing it fails: {rr['draw_error']}", rj)
+        return ["fails"]
+    nodes, edges = parse_plain(rr["plain"])
+    snodes, sedges = set(rr["nodes"]), {tuple(e) for e in rr["edges"]}
+    rj = dict(rj, nodes=sorted(nodes), edges=sorted(edges), structure_nodes=rr["nodes"], structure_edges=rr["edges"], graph=rr["plain"][:3000])
+    diffs = []
+    if snodes - nodes:
+        diffs.append("missing")
+        rep.violation(f"path-alphabet:{cls}", f"{where}: the nodes {json.dumps(sorted(snodes - nodes), ensure_ascii=False)[:200]} of the graph are not in the file"
+                      + (f", which has the nodes {json.dumps(sorted(nodes - snodes), ensure_ascii=False)[:200]} instead" if nodes - snodes else ""), rj)
+    elif nodes - snodes:
+        diffs.append("bogus")
+        rep.violation(f"path-alphabet:{cls}", f"{where}: the file has the nodes {json.dumps(sorted(nodes - snodes), ensure_ascii=False)[:200]}, which are no nodes of the graph", rj)
+    if not (snodes - nodes) and edges != sedges:
+        diffs.append("edges")
+        rep.violation(f"path-alphabet:{cls}", f"{where}: the styled edges of the file differ from those of the graph: extra {sorted(edges - sedges)[:3]} missing {sorted(sedges - edges)[:3]}", rj)
+    return diffs
+
+
+def passes_alone(r):
+    """Does the pipeline, with the paths it has, evaluate with and without export to the same result, with exactly the
+    graph of the specification?"""
+    if "error" in r or not r["rec"]["impl"]["out"].startswith("ok:") or r["rec"]["impl"].get("graph") is None:
+        return False
+    nodes, edges = parse_plain(r["rec"]["impl"]["graph"])
+    kept, loaded, solid, dashed = spec_graph(r["job"]["prog"], r["job"]["call"])
+    return (r["rec"]["impl"]["out"] == r["ctl"]["impl"]["out"] and hist.impl_obs(r["rec"])["sigs"] == hist.impl_obs(r["ctl"])["sigs"] and nodes == kept | loaded
+            and len(nodes) >= 2 and {(a, b) for a, b, s in edges if s == "solid"} == solid and {(a, b) for a, b, s in edges if s == "dashed"} == dashed and not has_cycle(edges))
+
+
+def check_alphabet(rep, r):
+    """The checks of a pipeline with renamed paths (the same pipeline with its own paths passed them all).  Returns
+    True when the pipeline was evaluated."""
+    job = r["job"]
+    info, cls = job["alphabet"], job["alphabet_class"]
+    rep_job = {"prog": job["prog"], "call": job["call"], "pre": job.get("pre", []), "alphabet": info, "alphabet_class": cls, "base": job["base"]}
+    where = f"paths of class '{cls}' {json.dumps(sorted(info), ensure_ascii=False)[:300]} (the same pipeline with the paths {sorted(v['was'] for v in info.values())[:6]} passes)"
+    if "error" in r:
+        rep.violation("harness-error:c18-path-alphabet", r["error"][-300:], rep_job, no_input=True)
+        return False
+    io, ctl = r["rec"]["impl"], r["ctl"]["impl"]
+    if not ctl["out"].startswith("ok:"):
+        return False            # not a pipeline that evaluates (with these paths): nothing is demanded of the export
+    if not io["out"].startswith("ok:"):
+        if job.get("alphabet_base") is not None:
+            # paths of several classes: the first class that makes the export fail when only its paths are renamed
+            for c in sorted({v["class"] for v in info.values()}):
+                one_class = one(dict(rename_paths(job["alphabet_base"], lambda k_, c=c: c if job["alphabet_pick"](k_) == c else None, random.Random(0), rot=job["alphabet_rot"])))
+                if "error" not in one_class and one_class["ctl"]["impl"]["out"].startswith("ok:") and not one_class["rec"]["impl"]["out"].startswith("ok:"):
+                    cls = c
+                    where = f"(fails too when only the paths of class '{c}' are renamed) " + where
+                    break
+        rep.violation(f"path-alphabet:{cls}", f"{where}: the evaluation succeeds without export but gives {io['out'][:60]} with dds_export_graph "
+                      f"({' '.join(io.get('tb', '').split())[-160:]})", dict(rep_job, tb=io.get("tb", "")[-400:]))
+        return True
+    if io["out"] != ctl["out"] or hist.impl_obs(r["rec"])["sigs"] != hist.impl_obs(r["ctl"])["sigs"]:
+        rep.violation(f"path-alphabet:export-perturbs:{cls}", f"{where}: result or signatures differ with and without dds_export_graph", rep_job)
+    if io.get("graph") is None:
+        rep.violation(f"path-alphabet:export-missing:{cls}", f"{where}: the evaluation succeeded but no graph file was written", rep_job)
+        return True
+    nodes, edges = parse_plain(io["graph"])
+    kept, loaded, solid, dashed = spec_graph(job["prog"], job["call"])
+    rj = dict(rep_job, nodes=sorted(nodes), edges=sorted(edges), graph=io["graph"][:3000])
+    missing, bogus = (kept | loaded) - nodes, nodes - (kept | loaded)
+    if missing:
+        rep.violation(f"path-alphabet:{path_class(info, missing)}", f"{where}: kept / loaded paths {json.dumps(sorted(missing), ensure_ascii=False)[:200]} do not appear as nodes"
+                      + (f", nodes that are no path of the pipeline: {json.dumps(sorted(bogus), ensure_ascii=False)[:200]}" if bogus else ""), rj)
+    elif bogus:
+        rep.violation(f"path-alphabet:{path_class(info, bogus)}", f"{where}: the graph has nodes that are neither kept nor loaded paths of the pipeline: "
+                      f"{json.dumps(sorted(bogus), ensure_ascii=False)[:200]}", rj)
+    isolid = {(a, b) for a, b, s in edges if s == "solid"}
+    idashed = {(a, b) for a, b, s in edges if s == "dashed"}
+    if not missing and (isolid != solid or idashed != dashed):
+        diff = sorted((isolid ^ solid) | (idashed ^ dashed))
+        rep.violation(f"path-alphabet:{path_class(info, {x for e in diff for x in e})}", f"{where}: solid / dashed edges differ from the specification: "
+                      f"extra {sorted((isolid - solid) | (idashed - dashed))[:3]} missing {sorted((solid - isolid) | (dashed - idashed))[:3]}", rj)
+    if has_cycle(edges):
+        rep.violation(f"path-alphabet:graph-cyclic:{cls}", f"{where}: the exported graph has a cycle", rj)
+    for a, b, s in edges:
+        if s not in ("solid", "dashed", "dotted"):
+            rep.violation(f"path-alphabet:edge-style-unknown:{cls}", f"{where}: edge {a}->{b} has style {s}", rj)
+    return True
 
 
 # ----------------------------------------------------------------------------- the state of the store at export time
@@ -271,6 +543,9 @@ def run(rep, tier, seed, proof_ok):
     rng = random.Random(seed)
     n = 14 if tier == "quick" and proof_ok else 150
     n_st = min(n, 14) if tier == "quick" else 60         # random pipelines that are also exported in the other states of the store
+    per_class, n_mixed = (1, 0) if tier == "quick" else (4, 40)
+    n_alpha = per_class * len(PATH_CLASSES)
+    n_drawn = (2 if tier == "quick" else 12) * len(PATH_CLASSES)
     rep.rule = (f"{n} random pipelines (nesting, shared sub-nodes, keeps with run-time arguments) plus the load scenarios of C09 (placement x "
                 "producer) evaluated with dds_export_graph (plain format) on a memory store: the exported nodes and styled edges are "
                 "parsed back and compared with the Coq model of _structure and with the specification graph computed from the program "
@@ -280,7 +555,15 @@ def run(rep, tier, seed, proof_ok):
                 "evaluated / exported before = all blobs present, with dds_extra_debug=True or the option extra_debug=False; another pipeline sharing sub-nodes (a function "
                 "below the entry point) evaluated before; the same entry point evaluated before with other arguments; an edited variant (kept leaf / middle function / "
                 "variable / literal / helper / entry point) evaluated before on the same local store by another process = partly populated): graph, result and "
-                "signatures must equal those of the fresh store; plus random interaction trees with shared sub-trees, run-time-argument nodes and loads given directly to the real _structure (cycle search; a sample compared with the Coq model); distinct = distinct pipeline / tree; non-trivial = at least two nodes")
+                f"signatures must equal those of the fresh store; the alphabet of the paths: {n_alpha} of the pipelines that pass the checks above with their own paths and have at least two nodes (random ones and load scenarios alternating) are evaluated and exported "
+                f"again with every store path renamed to a path of one of {len(PATH_CLASSES)} classes of characters special to the dot language, to the plain format or to pydot's handling of names (double quote, "
+                "quoted word, backslash alone / doubled / before a letter / before a quote / at the very end, colon, comma, semicolon, space, tab, ->, --, braces, angle brackets, |, #, %, &, =[], single quote, "
+                "unicode, /* */, empty segment, a segment that is a dot keyword or a number, a name longer than an output line), the special text in the only / first / middle / last segment and at the start / "
+                "middle / end of it, the path written as a literal, through a str or a pathlib.Path variable, in a decorator or given as an argument"
+                + ("" if tier == "quick" else f"; {n_mixed} more with paths of several classes in one pipeline") +
+                ": export must succeed when the evaluation without export does, same result and signatures, the nodes read back (with the exact quoting rules of the plain format) are exactly the renamed kept / loaded paths, "
+                f"solid and dashed edges as specified, no cycle; {n_drawn} random interaction trees whose paths are of one class each are drawn by the real draw_graph (also with present blobs, as for dds_extra_debug): the file "
+                "read back must be exactly the graph the real _structure gives for the tree (nodes, solid / dashed / dotted edges); plus random interaction trees with shared sub-trees, run-time-argument nodes and loads given directly to the real _structure (cycle search; a sample compared with the Coq model); distinct = distinct pipeline / tree; non-trivial = at least two nodes")
     jobs = []
     for i in range(n):
         r2 = random.Random(seed * 1000 + i)
@@ -315,11 +598,42 @@ def run(rep, tier, seed, proof_ok):
         bi = len(jobs) - n_state_pipelines + i
         for sc in store_state_scenarios(job, bi, tier, random.Random(seed * 7919 + bi)):
             scs.append(dict(sc, base=bi))
+    # the alphabet of the paths: pipelines (of the random ones and of the load scenarios, alternating) that pass with their
+    # own paths, with their paths renamed; quick: one pipeline per class of characters, otherwise several, plus pipelines
+    # whose paths are of different classes.  For a class, the next pipeline in which the renaming reaches at least two nodes.
+    def alphabet_jobs(passing):
+        bases = [j for j in jobs if j["idx"] in passing and "corpus" not in j]
+        with_loads, others = [b for b in bases if "load_scenario" in b], [b for b in bases if "load_scenario" not in b]
+        if with_loads and others:
+            bases = [b for i in range(max(len(with_loads), len(others))) for b in (others[i % len(others)], with_loads[i % len(with_loads)])]
+        out = []
+        for cls in [c[0] for c in PATH_CLASSES] * per_class + ["several-classes"] * n_mixed if bases else []:
+            k = len(out)
+            r3 = random.Random(seed * 104729 + k)
+            pick = [r3.choice([c[0] for c in PATH_CLASSES] + [None] * 3) for _ in range(64)]
+            cls_of = (lambda k_, pick=pick: pick[k_ % len(pick)]) if cls == "several-classes" else (lambda k_, cls=cls: cls)
+            best = None
+            for t in range(len(bases)):
+                base = bases[(seed + k + t) % len(bases)]
+                j = rename_paths(base, cls_of, random.Random(seed * 104729 + k), rot=seed + 5 * k)
+                kept, loaded, _, _ = spec_graph(j["prog"], j["call"])
+                reach = min(2, len([q for q in j["alphabet"] if q in kept | loaded]))
+                if best is None or reach > best[0]:
+                    best = (reach, dict(j, alphabet_class=cls, base=base["idx"]))
+                    if cls == "several-classes":
+                        best[1].update(alphabet_base=base, alphabet_pick=cls_of, alphabet_rot=seed + 5 * k)
+                if reach == 2:
+                    break
+            out.append(best[1])
+        return out
     with cf.ThreadPoolExecutor(max_workers=C.NPROC) as ex:
         fut = [ex.submit(one, j) for j in jobs]
         sfut = [ex.submit(run_state, sc) for sc in scs]
         res = [f.result() for f in fut]
+        ajobs = alphabet_jobs({r["job"]["idx"] for r in res if passes_alone(r)})
+        afut = [ex.submit(one, j) for j in ajobs]
         sres = [f.result() for f in sfut]
+        ares = [f.result() for f in afut]
     good =[r for r in res if "error" not in r and r["rec"]["impl"]["out"].startswith("ok:")]
     exprs = []
     for r in good:
@@ -436,6 +750,24 @@ def run(rep, tier, seed, proof_ok):
                               f"{where}: the exported graph differs from the graph of the same pipeline exported on a fresh store: missing nodes {sorted(base['nodes'] - nodes)[:3]} "
                               f"extra nodes {sorted(nodes - base['nodes'])[:3]} missing edges {sorted(base['edges'] - edges)[:4]} extra edges {sorted(edges - base['edges'])[:4]}",
                               dict(rj, nodes=sorted(nodes), edges=sorted(edges)))
+    # 5. the alphabet of the paths: the pipelines that pass with their own paths, with renamed paths
+    alpha = {"pipelines": len(ajobs), "checked": 0, "not_evaluated_with_these_paths": 0, "by_class": {}, "renamed_paths": 0,
+             "paths_by_segment": {}, "paths_by_place_in_segment": {}, "paths_by_role": {}, "paths_by_spelling": {}}
+    for r in ares:
+        job = r["job"]
+        if not check_alphabet(rep, r):
+            alpha["not_evaluated_with_these_paths"] += 1
+            continue
+        kept, loaded, _, _ = spec_graph(job["prog"], job["call"])
+        rep.case("alphabet:" + job["alphabet_class"] + json.dumps(job["call"]) + str(sorted(job["alphabet"])), nontrivial=len(job["alphabet"]) >= 1 and len(kept | loaded) >= 2)
+        alpha["checked"] += 1
+        alpha["by_class"][job["alphabet_class"]] = alpha["by_class"].get(job["alphabet_class"], 0) + 1
+        for q, v in job["alphabet"].items():
+            alpha["renamed_paths"] += 1
+            role = "+".join(x for x, on in (("kept", q in kept), ("loaded", q in loaded), ("data-function", v["data_function"])) if on) or "not-in-the-graph"
+            for dim, val in [("paths_by_segment", [v["segment"]]), ("paths_by_place_in_segment", [v["place"]]), ("paths_by_role", [role]), ("paths_by_spelling", v["spelled"])]:
+                for x in val:
+                    alpha[dim][x] = alpha[dim].get(x, 0) + 1
     for r in res:
         if "error" in r:
             rep.violation("harness-error:c18", r["error"][-300:], {"call": r["job"]["call"]}, no_input=True)
@@ -451,6 +783,20 @@ def run(rep, tier, seed, proof_ok):
                       {"fuzz": True, "tree": cy["tree"], "edges": cy["edges"]})
     for er in fz["errors"]:
         rep.violation("export-fails:fuzzed-interaction-tree", f"the real _structure raises {er['error']}", {"fuzz": True, "tree": er["tree"]})
+
+    # the alphabet of the paths, below the analysis: interaction trees whose paths are of one class, drawn by the real
+    # draw_graph; the file read back must be the graph the real _structure gives (all three styles of edges)
+    rtrees = []
+    for cls, _, _ in PATH_CLASSES:
+        for t in range(n_drawn // len(PATH_CLASSES)):
+            used = set()
+            rtrees.append({"class": cls, "names": [special_path(cls, k + 1, seed + len(rtrees) + k, used)[0] for k in range(7)], "present": len(rtrees) % 3 == 2})
+    rres = C.run_driver("drive_graphrender.py", {"seed": seed, "trees": rtrees}, timeout=1500)
+    alpha["drawn_interaction_trees"] = len(rres)
+    for spec, rr in zip(rtrees, rres):
+        check_drawn(rep, spec["class"], rr)
+        if "plain" in rr:
+            rep.case("drawn:" + json.dumps(rr["tree"])[:300], nontrivial=len(rr["nodes"]) >= 2)
 
     def fi_coq(t):
         sig, path, nargs, loads, ch = t
@@ -468,7 +814,7 @@ def run(rep, tier, seed, proof_ok):
                           {"fuzz": True, "tree": smp["tree"], "impl_nodes": smp["nodes"], "impl_edges": smp["edges"], "model": m})
     rep.extra["input_distribution"] = {"pipelines": len(jobs), "graphs_by_number_of_nodes": sizes, "store_state_histories": len(scs),
                                        "exports_by_store_state": dict(states, fresh=len(good)), "fuzzed_interaction_trees": fz["trees"],
-                                       "fuzzed_trees_compared_with_model": len(fz["sample"])}
+                                       "fuzzed_trees_compared_with_model": len(fz["sample"]), "path_alphabet": alpha}
     if good:
         rep.sample({"entry": good[0]["job"]["call"], "graph": good[0]["rec"]["impl"].get("graph", "")[:300]})
 
@@ -486,6 +832,17 @@ def replay(path):
     if r.get("fuzz"):
         print("fuzzed interaction tree: re-run drive_graphfuzz.py with the recorded seed; tree:", json.dumps(r["tree"])[:2000])
         return 1
+    if r.get("drawn"):
+        rr = C.run_driver("drive_graphrender.py", {"seed": 0, "trees": [{"tree": r["tree"], "names": r["names"], "present": r["present"]}]})[0]
+        rep = C.Report("C18", "replay", 0)
+        rep.known = []
+        diffs = check_drawn(rep, r["class"], rr)
+        print("graph of _structure:", rr.get("nodes"), rr.get("edges"))
+        print("file read back     :", rr.get("draw_error") or [sorted(x) for x in parse_plain(rr.get("plain", ""))])
+        for v in rep.violations:
+            print("  ", v["what"][:400])
+        print("REPRODUCED" if diffs else "not reproduced")
+        return 1 if diffs else 0
     if "events" in r:
         # a store-state scenario: the history is run again, and the same pipeline is exported on a fresh store
         got = run_state({"events": _tuples(r["events"]), "store": r["store"], "options": r["options"]})
@@ -511,7 +868,7 @@ def replay(path):
     print("with export   :", x["rec"]["impl"]["out"][:100], "| without:", x["ctl"]["impl"]["out"][:100])
     print("exported      : nodes", sorted(nodes), "edges", sorted(edges))
     print("specification : nodes", sorted(kept | loaded), "solid", sorted(solid), "dashed", sorted(dashed))
-    bad = (x["rec"]["impl"]["out"] != x["ctl"]["impl"]["out"] or has_cycle(edges) or bool((kept | loaded) - nodes)
+    bad = (x["rec"]["impl"]["out"] != x["ctl"]["impl"]["out"] or has_cycle(edges) or bool((kept | loaded) - nodes) or ("alphabet" in r and nodes != kept | loaded)
            or {(a, b) for a, b, s in edges if s == "solid"} != solid or {(a, b) for a, b, s in edges if s == "dashed"} != dashed)
     print("REPRODUCED" if bad else "not reproduced")
     return 1 if bad else 0
